@@ -70,6 +70,9 @@ impl<'a, T: Read + Write + Seek> PointCloudWriter<'a, T> {
 
         // Calculate max number of points per packet
         let max_points_per_packet = get_max_packet_points(&prototype);
+        if max_points_per_packet == 0 {
+            Error::invalid("Prototype is too big, a single point does not fit into a data packet")?
+        }
 
         // Prepare byte stream buffers
         let byte_streams = vec![ByteStreamWriteBuffer::new(); prototype.len()];
@@ -761,5 +764,6 @@ fn get_max_packet_points(prototype: &[Record]) -> usize {
         // so any number of points fits into a (never written) packet.
         return u16_max;
     }
-    ((u16_max - headers_size - max_incomplete_bytes - SAFETY_MARGIN) * 8) / point_size_bits
+    let available = u16_max.saturating_sub(headers_size + max_incomplete_bytes + SAFETY_MARGIN);
+    (available * 8) / point_size_bits
 }
